@@ -175,6 +175,7 @@ type Engine struct {
 	skipInit      map[*ssa.Function]func()
 	dirs          map[string][]Value
 	files         map[string][]Value // modelled regular files (osfile.go)
+	dirOff        map[*Value]int     // read position of modelled directory handles
 	gomaxprocs    *term.T
 	tableLoop     *tableLoopSpec
 	trace         []string
@@ -539,6 +540,8 @@ func (e *Engine) call(caller *frame, pos token.Pos, fn Value, args []Value) Valu
 			}
 		case "String":
 			return rt.T.String()
+		case "Comparable":
+			return term.Bool(types.Comparable(rt.T))
 		}
 		panic(unsupported("reflect.Type method " + fn.name))
 	}
